@@ -17,7 +17,7 @@ case "$TESTS" in *"273 passed"*) ;; *) echo "REJECT: tests"; exit 1;; esac
 [ "$CLEAN" = 0 ] && [ "$MUT" = 1 ] || { echo "REJECT: demo exits"; exit 1; }
 mkdir -p "$OUT" && cp "$M/patch.diff" "$M/demo.py" "$M/NOTES.md" "$OUT/"
 tail -5 /tmp/vs-mut.log > "$OUT/demo_output_with_patch.txt"
-/venv/bin/python - "$PID" "$AREA" "$OUT" "$TESTS" <<'PY'
+WT_FOR_META="$WT" /venv/bin/python - "$PID" "$AREA" "$OUT" "$TESTS" <<'PY'
 import json, sys
 pid, area, out, tests = sys.argv[1:5]
 notes = open(f"{out}/NOTES.md").read().splitlines()
@@ -26,7 +26,7 @@ json.dump({"property": pid, "breaks_property": pid, "round": int(__import__("os"
   "needs_to_manifest": " ".join(l.strip() for l in notes[1:6] if l.strip())[:400],
   "validated": {"clean_demo_exit": 0, "patched_demo_exit": 1, "tests_with_patch": tests,
   "how": "tools/validate_seed3.sh: demo on clean worktree, git apply, full pytest, demo again, git checkout"},
-  "base_commit": __import__("subprocess").check_output(["git","-C","/repo","rev-parse","HEAD"],text=True).strip(),
+  "base_commit": __import__("subprocess").check_output(["git","-C",__import__("os").environ.get("WT_FOR_META","/repo"),"rev-parse","HEAD"],text=True).strip(),
   "what_was_run": "tools/validate_seed3.sh and tools/seed_matrix.py", "detected_by": []}, open(f"{out}/meta.json","w"), indent=1)
 PY
 echo "stored $OUT"
